@@ -93,9 +93,9 @@ theorem depths_agree (b : Block) (annot : Annot) (h : check b annot = true) (p q
     p.2.arg = q.2.arg ∧ p.2.env = q.2.env ∧ p.2.bind = q.2.bind := by
   unfold check at h
   simp only [Bool.and_eq_true] at h
-  have mp := (check_sound b annot h.1 p hp).1
-  have mq := (check_sound b annot h.1 q hq).1
-  have hf := h.2
+  have mp := (check_sound b annot h.1.1 p hp).1
+  have mq := (check_sound b annot h.1.1 q hq).1
+  have hf := h.1.2
   unfold functional at hf
   simp only [List.all_eq_true] at hf
   have := hf p mp q mq
@@ -160,23 +160,35 @@ theorem locator_in_chain (b : Block) (i : Instr) (s : Sigma) (fp : Nat) (hfp : b
   simp only [beq_self_eq_true, ↓reduceIte, hb, decide_eq_true_eq] at this
   exact this
 
-/-- what an accepted exception edge gives the VM: the handler that `handle_exception_at` would pick exists as an
-    instruction... its environment count does not exceed the chain, and the state it starts in is annotated -/
+/-- HANDLERS GET WHAT THEY ASSUME: in an accepted block, every instruction that can throw inside a handler's range is
+    reached, on every path, with at least the environment depth that `handle_exception_at` restores for that handler -/
+theorem handlers_assume_right (b : Block) (annot : Annot) (h : check b annot = true) (p : Nat × Sigma) (hr : Reach b p)
+    (i : Instr) (hd : Handler) (hi : instrAt b p.1 = some i) (ht : (effect i).throws = true)
+    (hh : findHandler b.handlers i.pc = some hd) : hd.envCount ≤ p.2.env := by
+  unfold check at h
+  simp only [Bool.and_eq_true, List.all_eq_true] at h
+  have hm := (check_sound b annot h.1.1 p hr).1
+  have := h.2 p hm
+  unfold handlerDepthOk at this
+  rw [hi] at this
+  simp only [ht, ↓reduceIte, hh, decide_eq_true_eq] at this
+  exact this
+
+/-- the exception edge of the abstract machine: the handler's target is a successor, entered with an empty value stack,
+    no pending binding reference, and the handler's environment count (or the shallower chain, which
+    `handlers_assume_right` excludes in accepted blocks) -/
 theorem handler_edge (b : Block) (i : Instr) (s : Sigma) (succs : List (Nat × Sigma)) (h : Handler)
     (hs : successors b i s = some succs) (ht : (effect i).throws = true) (hh : findHandler b.handlers i.pc = some h) :
-    h.envCount ≤ s.env ∧ ∃ d, (h.target, { arg := 0, env := h.envCount, bind := 0, disp := d }) ∈ succs := by
+    ∃ d, (h.target, { arg := 0, env := min s.env h.envCount, bind := 0, disp := d }) ∈ succs := by
   unfold successors at hs
   cases ha : applyEff b i s (effect i) with
   | none => rw [ha] at hs; simp at hs
   | some s' =>
     rw [ha] at hs
-    simp only [ht, ↓reduceIte, hh] at hs
-    by_cases hlt : s.env < h.envCount
-    · simp [hlt] at hs
-    · simp only [hlt, ↓reduceIte, Option.some.injEq] at hs
-      refine ⟨by omega, s'.disp, ?_⟩
-      rw [← hs]
-      simp
+    simp only [ht, ↓reduceIte, hh, Option.some.injEq] at hs
+    refine ⟨s'.disp, ?_⟩
+    rw [← hs]
+    simp
 
 -- the hypotheses are satisfiable: a block with a loop, a call, an environment push and a handler is accepted,
 -- and its inferred annotation is the one the check accepts
